@@ -415,7 +415,27 @@ def run_C06(run):
                       "coqc (A_C06_defs, P_C06_small, P_C06_u16lit/u16inv/s16lit/s16inv, Properties_C06); tools/corr/impl_C06 | coq/extract/corr_model")
 
 
-TABLE = {"C06": run_C06, "C14": run_C14, "C18": run_C18, "C05": run_C05, "C07": run_C07, "C01": run_C01, "C13": run_C13, "C09": run_C09, "C04": run_C04, "C02": run_C02, "C10": run_C10, "C08": run_C08, "C17": run_C17, "C12": run_C12}
+# ------------------------------------------------------------------------------------------ C19
+def run_C19(run):
+    stats = par([lambda: run.build_trace("tr_C19", "Gen_C19", [])])
+    trace_cov(run, stats)
+    gens = [os.path.join(run.dir, "Gen_C19.v")] if os.path.exists(os.path.join(run.dir, "Gen_C19.v")) else []
+    run.prove(gens, [], ["C19/P_C19_int.v", "C19/P_C19_real.v"], "C19/Properties_C19.v", timeout=900)
+    fails = oracle_sweep(run, "C19", [("all", ["-pthread"])], run.tier, opt="-O1")
+    run.fails = run.triage(fails)
+    run.assumptions = ["floating conversions: real-number semantics (pow is the real power function, every operation exact) with the binary32 values of the source constants; float rounding is outside the theorems and is exercised by the oracle (tolerance 3e-6 float / 1e-9 double against a double reference)",
+                       "HSV: rgbColor switches on int(sector), a conversion of a traced float to a concrete int, which the tracer does not enumerate; rgbColor/hsvColor (range, value = max, mutual inverse on the cube and over the full hue circle incl. sector boundaries) are covered by the oracle only; hsvColor returns a NaN hue for grey colours, which the property leaves undefined",
+                       "the 3- and 4-component sRGB overloads are tied to the one-component theorem by the alpha theorem (syntactic) and the oracle's per-component comparison; the lowp convertLinearToSRGB approximation (a different formula) is not covered",
+                       "YCoCg-R on 8/16-bit element types (integer promotion) is covered by the oracle: all 2^24 8-bit triples for uint8, int16, int, uint32 (int8 strided in the quick tier) and a 16-bit lattice; the theorems are for unbounded integers and for int32 with wrap-around",
+                       "the reverse composite rgb2YCoCgR(YCoCgR2rgb(x)) is proved for unbounded integers only"]
+    run.samples.append("oracle: all 2^24 8-bit RGB triples x {uint8, int16, int, uint32} + int8 + 16-bit lattice; sRGB: grid i/60000 and random x in [0,1], the thresholds 0.0031308 and 0.04045 +- 1e-5, successor pairs for monotonicity, gamma random in [1,3] and exactly 2.4; HSV: random and 1/8-lattice colours incl. equal channels, hues at 60k and random over [0,360); saturation s in [0,2]")
+    return run.finish(TRUST_COMMON + ["Interval tactic (interval arithmetic with 60/64-bit software floats over Bignums; brings the standard library's Uint63 primitive-integer axioms) for the numeric facts about the sRGB constants",
+                                      "oracle_C19.cpp: double-precision references (violation search; sole check of HSV)"],
+                      "theorems: every integer triple (unbounded, and int32 with wrap-around) for YCoCg-R; every real input for YCoCg, the sRGB curves (monotone, range, end points, inverse within 1e-5), saturation, luminosity; alpha syntactically in every leaf",
+                      CHECKER)
+
+
+TABLE = {"C19": run_C19, "C06": run_C06, "C14": run_C14, "C18": run_C18, "C05": run_C05, "C07": run_C07, "C01": run_C01, "C13": run_C13, "C09": run_C09, "C04": run_C04, "C02": run_C02, "C10": run_C10, "C08": run_C08, "C17": run_C17, "C12": run_C12}
 
 
 def replay(pid, path):
